@@ -771,6 +771,38 @@ def rule_policy(ctx: Ctx) -> None:
     same = bool(rem) and bool(app) and norm(rem[0].args[0]) == norm(app[0].args[0]) and (rem[0].lineno, rem[0].col_offset) < (app[0].lineno, app[0].col_offset)
     ctx.tri("3-policy", get, (rem or app or [get.node])[0], same, not app, "get moves the key to the back (remove + append)",
             "get never appends the accessed key to the back of the queue: a hit does not refresh recency (FIFO, not LRU)", "remove/append on the queue not in the recognised order", key="lru-get-moves-back")
+    # the constructor stores each parameter under its own name: `self.duration_weight = access_weight` (a copy-paste slip) makes
+    # the eviction score ignore the weight the caller chose
+    n_w = 0
+    for ci in [c for c in ctx.prog.classes.values() if c.module.name == MOD]:
+        init = dict.get(ci.methods, "__init__")
+        if init is None:
+            continue
+        params = set(init.param_names()) - {"self"}
+        for a_ in walk_no_nested(init.node):
+            tv = [(a_.target, a_.value)] if isinstance(a_, ast.AnnAssign) and a_.value is not None else ([(t, a_.value) for t in a_.targets] if isinstance(a_, ast.Assign) else [])
+            for t, v in tv:
+                fld = _self_attr(t)
+                if fld is None or not isinstance(v, ast.Name) or v.id not in params:
+                    continue
+                own = fld.lstrip("_")
+                if own in params:
+                    n_w += 1
+                    ctx.add("3-policy", init, a_, v.id == own, f"{ci.name}.{fld} <- parameter `{v.id}`" if v.id == own else
+                            f"`{norm(a_)[:60]}` stores the parameter `{v.id}` in the attribute of the parameter `{own}`: the value the caller passed as `{own}` is ignored", key=f"wiring {ci.name}.{fld}")
+    ctx.floor("3-policy.wiring", n_w, 8)
+    # ... on EVERY hit: each path to a return of something other than the literal None (the miss) passes the append
+    gcfg = ctx.cfg(get)
+    app_nodes = set(gcfg.nodes(lambda s_: isinstance(s_, ast.Expr) and isinstance(s_.value, ast.Call) and isinstance(s_.value.func, ast.Attribute) and s_.value.func.attr == "append" and _self_attr(s_.value.func.value) == "_cache_queue"))
+    hits = gcfg.nodes(lambda s_: isinstance(s_, ast.Return) and s_.value is not None and not (isinstance(s_.value, ast.Constant) and s_.value.value is None))
+    if app_nodes and hits and all(x in [a_ for f_ in [get] for a_ in ast.walk(f_.node)] for x in app):
+        skipping = [h for h in hits if not gcfg.must_pass(ENTRY, h, app_nodes, normal_only=True)]
+        wp = gcfg.witness_path(ENTRY, skipping[0], app_nodes) if skipping else None
+        ctx.add("3-policy", get, gcfg.stmt[skipping[0]] if skipping else get.node, not skipping, "every hit refreshes the key's recency" if not skipping else
+                "a hit can be answered without moving the key to the back of the queue (the refresh is conditional): a key that was read recently is evicted as if it had not been - not LRU",
+                key="lru-get-always-moves-back", path=gcfg.describe(wp, get.module.relpath) if wp else None)
+    else:
+        ctx.add("3-policy", get, get.node, None, "UNDECIDED: the refresh of the recency happens in a helper / the hit returns were not recognised", key="lru-get-always-moves-back")
     hyb = ctx.prog.cls(f"{MOD}.HybridCache")
     hsc = Scope(ctx, hyb.methods["put"])
     sel = _selected_then_destroyed(hsc, ("pop",))
